@@ -18,7 +18,7 @@ DEFAULT_HEADERS = ('glm/glm.hpp', 'glm/ext.hpp')
 class Cfg:
     """a build configuration: -D macros / -m flags / headers / callees to keep opaque"""
 
-    def __init__(self, name='default', defines=(), flags=(), headers=DEFAULT_HEADERS, noinline=(), std=None, prelude='', peel=0, pre_text=''):
+    def __init__(self, name='default', defines=(), flags=(), headers=DEFAULT_HEADERS, noinline=(), std=None, prelude='', peel=0, pre_text='', memcheck=False):
         self.name = name
         self.defines = tuple(defines)
         self.flags = tuple(flags)
@@ -27,10 +27,11 @@ class Cfg:
         self.std = std
         self.prelude = prelude
         self.pre_text = pre_text   # text emitted before the GLM headers (e.g. the g++ preprocessor view: system headers first, then #undef __clang__)
+        self.memcheck = memcheck   # also emit the memory-safety records of every kernel (irtool --memcheck): size / alignment table per kernel in the TU
         self.peel = peel           # peel this many iterations off every loop (irtool --peel); the interpreter then cuts the residual back edge
 
     def key(self):
-        return (self.name, self.defines, self.flags, self.headers, self.noinline, self.std, self.prelude, self.peel, self.pre_text)
+        return (self.name, self.defines, self.flags, self.headers, self.noinline, self.std, self.prelude, self.peel, self.pre_text, self.memcheck)
 
     def __hash__(self):
         return hash(self.key())
@@ -41,7 +42,7 @@ class Cfg:
     def with_(self, name=None, defines=(), flags=(), noinline=(), headers=None, prelude=None):
         return Cfg(name or self.name, self.defines + tuple(defines), self.flags + tuple(flags),
                    headers if headers is not None else self.headers, self.noinline + tuple(noinline), self.std,
-                   self.prelude if prelude is None else prelude, self.peel, self.pre_text)
+                   self.prelude if prelude is None else prelude, self.peel, self.pre_text, self.memcheck)
 
     def describe(self):
         return ' '.join(['-D' + d for d in self.defines] + list(self.flags)) or '(default)'
@@ -102,6 +103,8 @@ def _tu_source(cfg, kernels):
     for k in kernels:
         out.append('#line 1 "%s"' % k.name)
         out.append(k.source())
+        if getattr(cfg, 'memcheck', False):
+            out.append('extern "C" { extern const unsigned long kmeta_%s[] = { %s }; }' % (k.name, ', '.join('(std::is_class<%s>::value ? sizeof(%s) : 0), alignof(%s)' % (p[1], p[1], p[1]) for p in k.params) or '0'))
     return '\n'.join(out) + '\n'
 
 
@@ -218,6 +221,10 @@ def build(kernels, workdir, tu_size=120, jobs=None, log=None):
             cmd += ['--noinline', r]
         if getattr(cfg, 'peel', 0):
             cmd += ['--peel', str(cfg.peel)]
+        if getattr(cfg, 'memcheck', False):
+            cmd += ['--memcheck', path + '.mem.jsonl']
+            if cfg.memcheck == 'only':
+                cmd += ['--mem-only']
         p = subprocess.run(cmd, stdout=subprocess.PIPE, stderr=subprocess.PIPE, text=True)
         if p.returncode != 0:
             return cfg, ks, path, fails, 'irtool failed: ' + p.stderr[:2000]
@@ -245,6 +252,13 @@ def build(kernels, workdir, tu_size=120, jobs=None, log=None):
                         index[(cfg.name, m.group(1).decode())] = (path + '.jsonl', off)
                     off += len(line)
     stats['compile_failures'] = len(failures)
+    mem = {}
+    for cfg, ks, path in tus:
+        if getattr(cfg, 'memcheck', False) and os.path.exists(path + '.mem.jsonl'):
+            for line in open(path + '.mem.jsonl'):
+                d = json.loads(line)
+                mem[(cfg.name, d['func'])] = d
+    stats['mem'] = mem
     return index, failures, broken, stats
 
 
